@@ -211,8 +211,8 @@ func genC17(c *mon.Ctx) []hcase {
 	}
 
 	// Controls + F3 "mutate" + F4 "truncate" over valid streams.
-	nStreams := c.N(36, 2400)
-	nTrunc := c.N(5, 40)
+	nStreams := c.N(36, 400)
+	nTrunc := c.N(5, 20)
 	for proto := byte(0); proto < nProto; proto++ {
 		for si := 0; si < nStreams; si++ {
 			rs := c.RandN(fmt.Sprintf("c17/valid/%d", proto), si)
@@ -301,7 +301,7 @@ func genC17(c *mon.Ctx) []hcase {
 	}
 
 	// F5 "random": random bytes, plain and behind a plausible small prefix.
-	nRandom := c.N(4000, 400000)
+	nRandom := c.N(4000, 60000)
 	for i := 0; i < nRandom; i++ {
 		proto := byte(i % nProto)
 		mode := []byte{mRead, mListen, mHeader, mReuse}[(i/nProto)%4]
@@ -322,7 +322,7 @@ func genC17(c *mon.Ctx) []hcase {
 
 	// F6 "obf": the obfuscated listener; the harness chooses the plaintext behind the
 	// real obfuscated2 keystream (valid frames, hostile prefixes), plus raw random bytes.
-	nObf := c.N(1500, 150000)
+	nObf := c.N(1500, 20000)
 	for i := 0; i < nObf; i++ {
 		proto := byte(i % 3) // full has no obfuscated2 tag
 		hdr, ks, err := obfKeystream(r, obfTag(proto), 1100)
